@@ -131,6 +131,29 @@ impl MutexPlayerRecurse for MutexRegretInfoset {
     }
 }
 
+#[cfg(feature = "verif")]
+impl crate::verif::Snap for RefCell<RegretInfoset> {
+    fn snap(&mut self) -> crate::verif::InfoState {
+        let info = self.get_mut();
+        crate::verif::InfoState {
+            cum_regret: info.cum_regret.to_vec(),
+            cum_strat: info.cum_strat.to_vec(),
+            strat: info.strat.to_vec(),
+        }
+    }
+}
+
+#[cfg(feature = "verif")]
+impl crate::verif::Snap for MutexRegretInfoset {
+    fn snap(&mut self) -> crate::verif::InfoState {
+        crate::verif::InfoState {
+            cum_regret: self.cum_regret.iter_mut().map(|reg| *reg.get_mut()).collect(),
+            cum_strat: self.cum_strat.get_mut().unwrap().to_vec(),
+            strat: self.strat.to_vec(),
+        }
+    }
+}
+
 // TODO there's a lot of duplication between this and recurse_multi, but the lack of GAT and
 // complexities of the atomic cumulative regret make it hard to generalize. We try a bit with
 // `recurse_player` but even that has its issues
@@ -212,6 +235,13 @@ fn recurse_player(
     cum_regret: impl IntoIterator<Item = impl Add>,
     rec: impl Fn(&Node, [f64; 2]) -> f64,
 ) -> (f64, f64) {
+    #[cfg(feature = "verif")]
+    crate::verif::visit(
+        0,
+        player.num,
+        player.infoset,
+        player as *const Player as usize,
+    );
     let mult = match (player.num, p_player) {
         (PlayerNum::One, [_, two]) => p_chance * two,
         (PlayerNum::Two, [one, _]) => -one * p_chance,
@@ -267,6 +297,8 @@ fn recurse_multi(
             Node::Player(player) => {
                 // get infoset
                 let info = &player.num.ind(&player_infosets)[player.infoset];
+                #[cfg(feature = "verif")]
+                crate::verif::jitter();
                 info.update_cum_strat(*player.num.ind(&p_player));
                 let (res, sub) = recurse_player(
                     player,
@@ -285,6 +317,8 @@ fn recurse_multi(
                         )
                     },
                 );
+                #[cfg(feature = "verif")]
+                crate::verif::jitter();
                 for val in info.cum_regret.iter() {
                     val.fetch_sub(sub, Ordering::Relaxed);
                 }
@@ -304,6 +338,8 @@ fn solve_generic_single(
 ) -> SolveInfo {
     let mut regs = [f64::INFINITY; 2];
     for it in 1..=iter {
+        #[cfg(feature = "verif")]
+        crate::verif::begin_pass(it, 0);
         let [player_one, player_two] = &player_infosets;
         recurse_single(
             start,
@@ -313,11 +349,22 @@ fn solve_generic_single(
             [1.0; 2],
         );
         chance_infosets.iter_mut().for_each(ChanceRecurse::advance);
+        #[cfg(feature = "verif")]
+        {
+            let [player_one, player_two] = &mut player_infosets;
+            crate::verif::snapshot(0, [&mut **player_one, &mut **player_two]);
+        }
         for (reg, infos) in regs.iter_mut().zip(player_infosets.iter_mut()) {
             *reg = infos
                 .iter_mut()
                 .map(|info| info.get_mut().advance(it, params))
                 .sum();
+        }
+        #[cfg(feature = "verif")]
+        {
+            let [player_one, player_two] = &mut player_infosets;
+            crate::verif::snapshot(1, [&mut **player_one, &mut **player_two]);
+            crate::verif::bounds(regs);
         }
         let [reg_one, reg_two] = regs;
         if f64::max(reg_one, reg_two) < max_reg {
@@ -387,6 +434,8 @@ fn solve_generic_multi(
         let mut work = Vec::with_capacity(target.get());
         let mut payoffs = HashMap::with_capacity(target.get());
         for it in 1..=iter {
+            #[cfg(feature = "verif")]
+            crate::verif::begin_pass(it, 0);
             // compute threadding threshold
             let [player_one, player_two] = &mut player_infosets;
             thread_threshold(
@@ -420,8 +469,19 @@ fn solve_generic_multi(
                 &payoffs,
             );
             chance_infosets.iter_mut().for_each(ChanceRecurse::advance);
+            #[cfg(feature = "verif")]
+            {
+                let [player_one, player_two] = &mut player_infosets;
+                crate::verif::snapshot(0, [&mut **player_one, &mut **player_two]);
+            }
             for (reg, infos) in regs.iter_mut().zip(player_infosets.iter_mut()) {
                 *reg = infos.iter_mut().map(|info| info.advance(it, params)).sum();
+            }
+            #[cfg(feature = "verif")]
+            {
+                let [player_one, player_two] = &mut player_infosets;
+                crate::verif::snapshot(1, [&mut **player_one, &mut **player_two]);
+                crate::verif::bounds(regs);
             }
             let [reg_one, reg_two] = regs;
             if f64::max(reg_one, reg_two) < max_reg {
